@@ -1,1 +1,2 @@
 import SqLemmas.DecLemmas
+import SqLemmas.LexLemmas
